@@ -1106,7 +1106,7 @@ func (ce *commandEncoder) Literal(size int64) io.WriteCloser {
 	ce.client.mutex.Lock()
 	hasCapLiteralMinus := ce.client.caps.Has(imap.CapLiteralMinus)
 	ce.client.mutex.Unlock()
-	if size > 4096 || !hasCapLiteralMinus {
+	if (size > 4096 || !hasCapLiteralMinus) && ce.Encoder.Err() == nil {
 		contReq = ce.client.registerContReq(ce.cmd)
 	}
 	ce.client.setWriteTimeout(literalWriteTimeout)
